@@ -27,14 +27,14 @@ func newBase(kind string) factstore.FactStoreWithRemove {
 // hashKeyed reports whether the kind identifies atoms by Atom.Hash() alone.
 func hashKeyed(kind string) bool {
 	switch kind {
-	case "multiarray", "concurrent-multiarray", "merged-file", "merged-file-snapshot", "saved-partial-result":
+	case "multiarray", "concurrent-multiarray", "merged-file", "merged-file-snapshot", "saved-partial-result", "teeing-snapshot":
 		return false
 	}
 	return true
 }
 
 // engineStoreKinds are the store configurations the evaluation checks run on.
-var engineStoreKinds = []string{"simple", "indexed", "multi", "multiarray", "concurrent-simple", "concurrent-multiarray", "merged", "teeing", "merged-file", "merged-file-snapshot", "temporal-adapter"}
+var engineStoreKinds = []string{"simple", "indexed", "multi", "multiarray", "concurrent-simple", "concurrent-multiarray", "merged", "teeing", "merged-file", "merged-file-snapshot", "temporal-adapter", "teeing-snapshot"}
 
 // newEngineStore builds a writable store of the kind, pre-loaded with the base
 // facts. For merged/teeing half of the base facts live in the read-only layer.
@@ -89,6 +89,14 @@ func newEngineStore(kind string, base []ast.Atom) factstore.FactStore {
 			s.Add(a)
 		}
 		return s
+	case "teeing-snapshot":
+		// everything the caller passes (base facts and part of an earlier evaluation's result) sits in the base layer
+		// of a TeeingStore; the engine writes to the output layer and re-derives what the base already holds
+		b := factstore.NewMultiIndexedArrayInMemoryStore()
+		for _, a := range base {
+			b.Add(a)
+		}
+		return factstore.NewTeeingStore(b)
 	case "teeing":
 		b := factstore.NewMultiIndexedArrayInMemoryStore()
 		for i, a := range base {
